@@ -37,7 +37,8 @@ pub fn from_stdin() {
         std::fs::create_dir_all(&dir).unwrap();
         let base = filetime::FileTime::from_unix_time(1_600_000_000, 0);
         for i in 0..initial {
-            let p = dir.join(format!("p{}", i));
+            // every second name carries an extension: a dot inside a name is an ordinary key byte
+            let p = dir.join(if i % 2 == 1 { format!("p{}.bin", i) } else { format!("p{}", i) });
             std::fs::write(&p, "x").unwrap();
             let m = filetime::FileTime::from_unix_time(1_600_000_000 + 10 * i as i64, 0);
             filetime::set_file_times(&p, if all_read { filetime::FileTime::from_unix_time(1_600_000_000 + 10 * i as i64 + 5, 0) } else { base }, m).unwrap();
@@ -57,7 +58,7 @@ pub fn from_stdin() {
         let used0 = vh::trigger_draws_used();
         let mut res = Vec::new();
         for (i, op) in ops.chars().enumerate() {
-            let name = match op { 's' | 'p' => format!("w{}", i), _ => "w_first".to_string() };
+            let name = match op { 's' | 'p' => if i % 3 == 1 { format!("w{}.v1.dat", i) } else { format!("w{}", i) }, _ => "w_first".to_string() };
             let existed = dir.join(&name).exists();
             let td = cache.temp_dir().unwrap().to_path_buf();
             let src = td.join(format!("src{}", i));
